@@ -117,8 +117,14 @@ func evalC06(c *engine.Case) engine.Verdict {
 					v.Class("redefine-with-input-filter")
 				}
 			}
+			// the redefined function is also called with one input withheld
+			// (a failing resolution inside it must come back as an error too)
+			w.DeficientFirst = true
 			_, rerr, rpanic, _, ro := w.RedefineCall(target, args)
 			o = ro
+			if d := w.DeficientOutcome; d != nil && d.Panic != "" && o.Panic == "" {
+				o.Panic = "redefined function called without one of its inputs: " + d.Panic
+			}
 			if rpanic != "" {
 				o.Panic = "Redefine: " + rpanic
 			}
@@ -364,7 +370,7 @@ func genC06(g engine.G) *engine.Case {
 		sc = engine.GenMany(g)
 	}
 	sc.RawConverters = g.Pct(15)
-	if t := &sc.Target; g.Pct(10) && !t.HasErr && !t.Built && !t.Identity && t.OutForm == engine.FormPos {
+	if t := &sc.Target; g.Pct(15) && !t.HasErr && !t.Built && !t.Identity && t.OutForm == engine.FormPos {
 		// a final result of a concrete error type: an ordinary output
 		t.ConcreteErr = true
 	}
@@ -391,6 +397,20 @@ func genC06(g engine.G) *engine.Case {
 				c.Filter = append(c.Filter, g.Int(0, engine.NumTypes-1))
 			}
 			c.Filter = uniqInts(c.Filter)
+		}
+		if g.Pct(50) && len(sc.Inputs) > 0 {
+			// withhold some of the values: the redefined function has to
+			// declare them as its inputs
+			var kept []engine.Input
+			for _, in := range sc.Inputs {
+				if g.Pct(50) {
+					kept = append(kept, in)
+				}
+			}
+			sc.Inputs = kept
+		}
+		if t := &sc.Target; g.Pct(15) && !t.HasErr && !t.Built && !t.Identity && !t.ConcreteErr && t.OutForm == engine.FormPos {
+			t.ConcreteErr = true
 		}
 	default:
 		c.Entry = "convert"
